@@ -10,6 +10,7 @@ import (
 
 	"github.com/gofiber/fiber/v3/binder"
 	"github.com/gofiber/utils/v2"
+	"github.com/tinylib/msgp/msgp"
 	"github.com/valyala/bytebufferpool"
 )
 
@@ -297,10 +298,23 @@ func (r *Redirect) Back(fallback ...string) error {
 func (r *Redirect) parseAndClearFlashMessages() {
 	// parse flash messages
 	cookieValue := r.c.Cookies(FlashCookieName)
+	raw := r.c.app.getBytes(cookieValue)
 
-	_, err := r.c.flashMessages.UnmarshalMsg(r.c.app.getBytes(cookieValue))
-	if err != nil {
+	// Every message takes at least one byte, so a header announcing more messages
+	// than there are bytes left cannot be valid: do not allocate for it.
+	n, rest, err := msgp.ReadArrayHeaderBytes(raw)
+	if err != nil || int64(n) > int64(len(rest)) {
 		return
+	}
+
+	// The slice is reused between requests and the decoder only assigns the fields
+	// present in the cookie: start from zero values.
+	clear(r.c.flashMessages[:cap(r.c.flashMessages)])
+
+	if _, err := r.c.flashMessages.UnmarshalMsg(raw); err != nil {
+		// Not a well-formed encoding: no messages.
+		clear(r.c.flashMessages[:cap(r.c.flashMessages)])
+		r.c.flashMessages = r.c.flashMessages[:0]
 	}
 }
 
